@@ -1307,7 +1307,10 @@ async fn execute(ch: &Chooser, params: &Params) -> ExecOut {
     }
     note_first(&b0, &mut ex);
     for s in &b0.finals {
-        ex.final_states.push(explorer::h64(&(&s.groups, &s.space, &s.members)));
+        // abstract state: member lists plus the shape (field sizes) of the persisted states; the
+        // bytes themselves contain message ids, which are not reproducible between runs
+        let shape = |m: &BTreeMap<String, Vec<u8>>| m.iter().map(|(k, v)| (k.clone(), v.len())).collect::<Vec<_>>();
+        ex.final_states.push(explorer::h64(&(shape(&s.groups), shape(&s.space), &s.members)));
     }
     let n = b0.msgs.len();
     // if the real API refused an action the scenario is cut there; the executed part is a prefix
